@@ -1103,7 +1103,10 @@ pub fn run_batch(batch_name: &str, cases: &[CaseEntry]) {
             let current = &current;
             let all_stats = &all_stats;
             let lines = &lines;
-            handles.push(sc.spawn(move || loop {
+            // generated `next()` functions of large lexers have very large frames in debug builds:
+            // give the workers a generous stack
+            let builder = std::thread::Builder::new().stack_size(512 << 20);
+            handles.push(builder.spawn_scoped(sc, move || loop {
                 let i = next.fetch_add(1, Ordering::SeqCst);
                 if i >= cases.len() {
                     break;
@@ -1141,7 +1144,7 @@ pub fn run_batch(batch_name: &str, cases: &[CaseEntry]) {
                 all_stats.lock().unwrap().merge(stats);
                 HEARTBEAT.fetch_add(1, Ordering::Relaxed);
                 current.lock().unwrap().remove(&t);
-            }));
+            }).expect("spawn worker"));
         }
         for h in handles {
             let _ = h.join();
